@@ -54,6 +54,12 @@ class Check:
     def obligations(self, mods, drivers=()):
         """Build the property's Lean modules and the model drivers it needs;
         every `theorem` of the modules is one obligation."""
+        done = getattr(self, "_mods_done", set())
+        ddone = getattr(self, "_drv_done", set())
+        if self.oblig is not None and set(mods) <= done and set(drivers) <= ddone:
+            return self.oblig          # already built and audited in this run
+        self._mods_done = done | set(mods)
+        self._drv_done = ddone | set(drivers)
         res = lean.check_obligations(mods, self.tier, drivers)
         if self.oblig is None:
             self.oblig = res
@@ -144,6 +150,10 @@ class Check:
         for v in self.violations:
             if v["key"] == key:
                 return True
+        if len(self.violations) >= 40:
+            # enough replays: keep counting, stop writing files
+            self.suppressed = getattr(self, "suppressed", 0) + 1
+            return True
         os.makedirs(os.path.join(REPLAYS, self.pid), exist_ok=True)
         self._replay_n += 1
         path = os.path.join(REPLAYS, self.pid, "%s-%s-%d.json" % (self.pid, self.tier, self._replay_n))
